@@ -117,11 +117,18 @@ def StringDtype(*a, **k):
 
 
 INT_BITS = {"int8": 8, "int16": 16, "int32": 32}
+# to_numeric(downcast="integer") picks the narrowest dtype that holds the *values*; for symbolic values this is a
+# case split.  Off by default (symbolic columns are int64); a harness switches it on for families with small bounds.
+NARROW = {"symbolic": False}
 
 
 def wrap_int(v, dtype_name):
-    """two's-complement wrap of a concrete int into a narrow integer dtype (symbolic values are assumed in range)"""
+    """two's-complement wrap into a narrow integer dtype (symbolic: modular term)"""
     bits = INT_BITS.get(dtype_name)
+    if bits is not None and isinstance(v, E.SInt):
+        import z3
+        m, h = 1 << bits, 1 << (bits - 1)
+        return E.mk(((v.z + h) % m) - h)
     if bits is None or not isinstance(v, int) or isinstance(v, bool):
         return v
     m = 1 << bits
@@ -132,6 +139,12 @@ def wrap_int(v, dtype_name):
 def smallest_int_dtype(vals):
     """dtype chosen by to_numeric(downcast='integer') for concrete ints (int64 when a value is symbolic)"""
     lo = hi = 0
+    if NARROW["symbolic"] and any(isinstance(v, E.SInt) for v in vals) and all(
+            isinstance(v, (int, E.SInt)) and not isinstance(v, bool) for v in vals):
+        for name, bits in INT_BITS.items():
+            if bool(E.sand(*[E.sand(v >= -(1 << (bits - 1)), v < (1 << (bits - 1))) for v in vals])):
+                return name
+        return "int64"
     for v in vals:
         if isinstance(v, bool) or not isinstance(v, int):
             return "int64"
